@@ -960,6 +960,8 @@ class Emitter:
             ps = [self.cty(p) for p in fty[2]]
             if fty[3]:
                 ps.append('...')
+            if ps == ['...']:
+                ps = ['']
             if not ps:
                 ps = ['void']
             self.fptypedefs.append('typedef %s (*%s)(%s);' % (ret, name, ', '.join(ps)))
@@ -972,7 +974,7 @@ class Emitter:
     # ---- constants / values
     def gname(self, name):
         s = cid(name)
-        if s in CKEYWORDS or s.startswith('__CPROVER'):
+        if s in CKEYWORDS or s.startswith('__CPROVER') or s == '__dso_handle':
             s = 'g_' + s
         return s
 
@@ -1324,10 +1326,11 @@ class Emitter:
             # new items discovered while rendering initializers: restart (rare) -- simple recursion
             return self.run_again()
         # struct forward decls and definitions in dependency order
+        sdefs = self.order_struct_defs()
         for cn, body in self.struct_defs:
             out.append(cn + ';')
-        out.extend(self.order_struct_defs())
         out.extend(self.fptypedefs_sorted())
+        out.extend(sdefs)
         for (S, D), fn in self.puns.items():
             out.append('static inline %s %s(%s x){ %s y; memcpy(&y,&x,sizeof y); return y; }' % (D, fn, S, D))
         out.extend(protos)
